@@ -5,6 +5,7 @@
 -/
 import IcingaProofs.C01.Lemmas
 import IcingaProofs.C01.Hist
+import IcingaProofs.C01.Pair
 
 namespace Icinga.C01
 
@@ -268,6 +269,129 @@ theorem soft_implies_last_hard_ok (c : Cfg) (hv : c.volatile = false) (s : St) (
         have hp := proj_ne_of_ok' c.kind s.state r.state a hok
         simp [s', stepCore, nextTypeAttempt, hardChangeOf, stateChange_eq_proj, hv, hok, a, b, d, hp]
 
+/-- Service, max 3, not volatile (used by the F-C01a counterexample). -/
+def exampleCfgO : Cfg := { kind := .service, max := 3, volatile := false }
+
+/-- **concurrent_pair_meets_spec** ("after ANY sequence of check results": results processed at the same
+    time still count as a sequence).  After every history from every start state, two further results
+    processed one after the other — what an implementation shows that takes the object lock before it
+    reads the state it computes from — satisfy the clause for concurrent pairs: the final state, type and
+    attempt are those of the streak after both results, and each result carries a hard event exactly when
+    the rule demands one at its place. -/
+theorem concurrent_pair_meets_spec (c : Cfg) (hmax : 1 ≤ c.max) (s0 : St) (h0 : 1 ≤ s0.attempt)
+    (rs : List Res) (a b : Res) :
+    specPair c (specAfter c (specStart c s0) (trace c s0 rs)) a.state b.state
+      (pairObsOf c (run c s0 rs) a b) = none := by
+  have hr := rel_after c hmax rs _ _ (rel_start c hmax s0 h0)
+  have := pairOrder_model c hmax _ _ a b hr
+  simp [specPair, this]
+
+/-- **concurrent_pair_step_meets_spec.**  The same for the production step with the stale-result filter, as the
+    driver runs it: two results with one execution start, from any state related to the reader's bookkeeping —
+    either the first is strictly older than the stored result (then dropping is allowed), or both are
+    processed and the pair clause holds. -/
+theorem concurrent_pair_step_meets_spec (c : Cfg) (hmax : 1 ≤ c.max) (sp : SpecSt) (s : St) (a b : Res)
+    (hr : Rel c sp s) (he : b.execStart = a.execStart) :
+    pairStep c sp s.lastExec a.state b.state a.execStart (pairObsStep c s a b) = none := by
+  cases hst : stale s a
+  · have hb : stale (stepCore c s a).1 b = false := by
+      simp [stale, stepCore, he]
+    have hobs : pairObsStep c s a b = pairObsOf c s a b := by
+      simp [pairObsStep, pairObsOf, step, hst, hb]
+    have := pairOrder_model c hmax sp s a b hr
+    rw [hobs]
+    simp [pairStep, pairObsOf, specPair]
+    simp [pairObsOf] at this
+    simp [this]
+  · have hm : mayDrop s.lastExec a.execStart = true :=
+      dropped_only_if_older c s a (by simp [step, hst])
+    simp [pairStep, pairObsStep, step, hst, hm]
+
+/-- Two states that represent the same streak agree in state type and attempt. -/
+theorem inv_determines (c : Cfg) (s1 s2 : St) (n : Nat) (h1 : Inv c s1 n) (h2 : Inv c s2 n) :
+    s1.stype = s2.stype ∧ s1.attempt = s2.attempt := by
+  obtain ⟨a0, a1, a2⟩ := h1
+  obtain ⟨b0, b1, b2⟩ := h2
+  rcases Nat.eq_zero_or_pos n with hz | hp
+  · obtain ⟨_, x, y⟩ := a0 hz; obtain ⟨_, x', y'⟩ := b0 hz; exact ⟨x.trans x'.symm, y.trans y'.symm⟩
+  · by_cases hlt : n < c.max
+    · obtain ⟨_, x, y⟩ := a1 hp hlt; obtain ⟨_, x', y'⟩ := b1 hp hlt; exact ⟨x.trans x'.symm, y.trans y'.symm⟩
+    · obtain ⟨_, x, y⟩ := a2 hp (by omega); obtain ⟨_, x', y'⟩ := b2 hp (by omega)
+      exact ⟨x.trans x'.symm, y.trans y'.symm⟩
+
+/-- **concurrent_nonok_order_irrelevant.**  For two non-OK results the order in which concurrent calls get
+    the object lock does not matter for the soft/hard state: both orders count two more results. -/
+theorem concurrent_nonok_order_irrelevant (c : Cfg) (hmax : 1 ≤ c.max) (s : St) (n : Nat) (hi : Inv c s n)
+    (a b : Res) (ha : isOK c.kind a.state = false) (hb : isOK c.kind b.state = false) :
+    (stepCore c (stepCore c s a).1 b).1.stype = (stepCore c (stepCore c s b).1 a).1.stype ∧
+    (stepCore c (stepCore c s a).1 b).1.attempt = (stepCore c (stepCore c s b).1 a).1.attempt :=
+  inv_determines c _ _ (n + 1 + 1)
+    (step_nonok c _ b (n + 1) hmax (step_nonok c s a n hmax hi ha) hb)
+    (step_nonok c _ a (n + 1) hmax (step_nonok c s b n hmax hi hb) ha)
+
+/-! ## A result whose state-change report is overtaken by the next result (F-C01a)
+
+FULL STATEMENT — does NOT hold of the unchanged code (checkable-check.cpp:453 re-reads `GetStateType()` after
+the locked sections and after `OnNewCheckResult`):
+
+    ∀ c s a b, (stepOvertaken c s a b).1.2 = (stepCore c s a).2
+
+i.e. a result reports the event the rule gives it at its place in the sequence, whatever is processed before
+it gets to report.  Proved: the partial statement under the exact extra hypothesis, and the counterexample. -/
+
+/-- Reading its own state type, the emission is the sequential one. -/
+theorem eventRead_own (c : Cfg) (s : St) (new : SState) (t : SType) : eventRead c s new t t = eventOf c s new t := rfl
+
+/-- **overtaken_event_partial.**  The overtaken result reports the event of the sequential rule whenever the
+    overtaking result leaves the same state type, or the event is a hard one, or the result is a state change —
+    exactly the cases in which the late re-read cannot matter. -/
+theorem overtaken_event_partial (c : Cfg) (s : St) (a b : Res)
+    (h : (stepCore c (stepCore c s a).1 b).1.stype = (stepCore c s a).1.stype ∨ (stepCore c s a).2 = .hard ∨
+         stateChange c.kind s.state a.state = true) :
+    (stepOvertaken c s a b).1.2 = (stepCore c s a).2 := by
+  rcases h with h | h | h
+  · simp only [stepOvertaken, h]; rfl
+  · have h' : eventOf c s a.state (stepCore c s a).1.stype = .hard := h
+    show eventRead c s a.state (stepCore c s a).1.stype _ = eventOf c s a.state (stepCore c s a).1.stype
+    unfold eventOf at h' ⊢
+    unfold eventRead
+    dsimp only at h' ⊢
+    by_cases hc : (hardChangeOf c s a.state (stepCore c s a).1.stype ||
+        (c.volatile && !(isOK c.kind s.state && isOK c.kind a.state))) = true
+    · rw [if_pos hc, if_pos hc]
+    · rw [if_neg hc] at h'; split at h' <;> simp at h'
+  · simp only [stepOvertaken, stepCore, eventRead, eventOf, h, Bool.true_or]
+
+/-- **overtaken_event_counterexample** (F-C01a).  Service, max 3, one CRITICAL after OK (soft, attempt 1):
+    the second CRITICAL is a soft re-check and must report a soft event; overtaken by a third CRITICAL
+    (which makes the service hard) it reports nothing.  And a repeated OK on a hard-OK service, overtaken by a
+    CRITICAL, reports a soft event instead of none. -/
+theorem overtaken_event_counterexample :
+    (stepCore exampleCfgO { pending with state := .critical, attempt := 1, lastHard := .ok } ⟨.critical, 3, 3⟩).2 = .soft ∧
+    (stepOvertaken exampleCfgO { pending with state := .critical, attempt := 1, lastHard := .ok }
+        ⟨.critical, 3, 3⟩ ⟨.critical, 3, 3⟩).1.2 = .none ∧
+    (stepCore exampleCfgO { pending with state := .ok, stype := .hard, lastHard := .ok } ⟨.ok, 3, 3⟩).2 = .none ∧
+    (stepOvertaken exampleCfgO { pending with state := .ok, stype := .hard, lastHard := .ok }
+        ⟨.ok, 3, 3⟩ ⟨.critical, 3, 3⟩).1.2 = .soft := by
+  decide
+
+/-- **overtaken_meets_spec_partial.**  Under the hypothesis of `overtaken_event_partial` the observation of
+    the overtaken result satisfies the whole specification for its line of the trace. -/
+theorem overtaken_meets_spec_partial (c : Cfg) (hmax : 1 ≤ c.max) (sp : SpecSt) (h : HistSt) (s : St) (a b : Res)
+    (hr : Rel c sp s) (hh : HRel c h s)
+    (hyp : (stepCore c (stepCore c s a).1 b).1.stype = (stepCore c s a).1.stype ∨ (stepCore c s a).2 = .hard ∨
+           stateChange c.kind s.state a.state = true) :
+    (overtakenStep c sp h a (obsOf c ((stepOvertaken c s a b).1.1, (stepOvertaken c s a b).1.2, true))).1 = none := by
+  rw [overtaken_event_partial c s a b hyp]
+  have e1 := (spec_step c hmax sp s a hr).1
+  have e2 := (hist_step c h s a hh).1
+  have e0 : (stepOvertaken c s a b).1.1 = (stepCore c s a).1 := rfl
+  have hacc : (obsOf c ((stepCore c s a).1, (stepCore c s a).2, true)).accepted = true := rfl
+  rw [e0]
+  unfold overtakenStep fullStep
+  simp only [hacc, if_true, e1, e2]
+  rfl
+
 /-! ## Non-vacuity: concrete, non-trivial instances of the hypotheses and of the specification -/
 
 /-- A service with max 3: OK, CRIT, CRIT, CRIT, WARN, OK from the pending state. -/
@@ -346,6 +470,22 @@ example : specFull exampleCfg specInit histInit
     [(⟨.ok, 5, 5⟩, svcObs true .ok .hard 1 .ok .hard 99 .unknown),
      (⟨.critical, 4, 6⟩, svcObs false .critical .hard 1 .ok .none 99 .unknown)]
     = some .droppedChangesSomething := by decide
+
+/-- A lost update is rejected: after OK, CRITICAL (max 3) two concurrent CRITICAL results must leave the
+    service hard — soft with attempt 2 (both computed from the same old state) is no sequence … -/
+example : specPair exampleCfg { everOk := true, streak := 1, prev := .critical } .critical .critical
+    { accA := true, accB := true, state := .critical, stype := .soft, attempt := 2, lastHard := .ok, hardA := 0, hardB := 0 }
+    = some .concurrentSerial := by decide
+
+/-- … the serialised outcome is accepted, in either order of the hard event … -/
+example : specPair exampleCfg { everOk := true, streak := 1, prev := .critical } .critical .warning
+    { accA := true, accB := true, state := .critical, stype := .hard, attempt := 1, lastHard := .critical, hardA := 1, hardB := 0 }
+    = none := by decide
+
+/-- … and a pair none of which may be dropped is rejected when one is. -/
+example : pairStep exampleCfg specInit (some 5) .ok .critical 5
+    { accA := true, accB := false, state := .ok, stype := .hard, attempt := 1, lastHard := .ok, hardA := 1, hardB := 0 }
+    = some .droppedAlthoughNotOlder := by decide
 
 /-- `NonDecr` holds of the example history from the pending state (premise of
     `streak_characterisation_run`). -/
